@@ -8,7 +8,16 @@
    misbehaved indices are distinct and within [1, n]; the operating indices are distinct and are
    exactly the other indices of [1, n]; the signatures map has distinct keys, every key is an
    operating member and every signature has 65 bytes; at least [quorum] signatures; the key
-   coordinates and the chain id fit 256 bits and the start block fits int64. *)
+   coordinates and the chain id fit 256 bits and the start block fits int64.
+
+   The signature theorems quantify over the hash function [keccak] (only its 32-byte output
+   length is used), the ecrecover precompile, the sortition pool's id -> operator map and a
+   relation [signed addr digest sig]; their only cryptographic premise is
+   [ecdsa_recovers ecrecover signed] (Model/C40.v, Part 5): a 65-byte signature produced by the
+   key of address [addr] over the 32-byte [digest] has s in the lower half order, V in {27, 28}
+   and ecrecover returns [addr], which is not the zero address.  [supporters_signed] /
+   [claim_supporters_signed] say: every entry of the signatures map was signed by the operator
+   of its seat over ethereumPrefixedHash of the hash the CLIENT computes. *)
 From Coq Require Import ZArith NArith List Permutation Sorted.
 From KV Require Import Model.C40 Proofs.C40.
 Import ListNotations.
@@ -114,6 +123,27 @@ Proof.
 Qed.
 Print Assumptions signature_hash_preimage_equal.
 
+(* validateSignatures (with validateFields and validateMembersHash: EcdsaDkgValidator.validate
+   minus the sortition-pool membership check): for EVERY valid input whose supporters signed the
+   client's hash, every 65-byte slice of the assembled signatures recovers (OpenZeppelin
+   ECDSA.recover) under the CONTRACT's message hash to the operator of the corresponding signing
+   index, so the loop V:245-255 runs to `return true`.  The hypotheses speak about ECDSA only:
+   the client's hash preimage, prefixed message and members-hash preimage are PROVED equal to the
+   contract's (signature_hash_preimage_equal, eth_signed_message_preimage_equal,
+   members_hash_preimage_equal). *)
+Theorem assembled_result_passes_validate_signatures :
+  forall (keccak : bytes -> bytes) (ecrecover : bytes -> N -> bytes -> bytes -> N)
+         (operator_of : N -> N) (signed : N -> bytes -> bytes -> Prop),
+  (forall b, lenN (keccak b) = 32) -> ecdsa_recovers ecrecover signed ->
+  forall p quorum i, valid_in p quorum i -> supporters_signed keccak operator_of signed i ->
+  exists a, assemble i = Ok a /\ submit quorum i = Ok a /\
+    validate_fields p (a_pubkey a) (a_misbehaved a) (a_sigs a) (a_signing a) = Valid /\
+    validate_members_hash keccak (a_members a) (a_misbehaved a) (to_result_hash keccak a) = Some true /\
+    validate_signatures keccak ecrecover operator_of (i_chainid i) (i_start i)
+      (a_pubkey a) (a_misbehaved a) (a_sigs a) (a_signing a) (a_members a) = Some true.
+Proof. exact Proofs.C40.assembled_result_valid. Qed.
+Print Assumptions assembled_result_passes_validate_signatures.
+
 (* the prefixed message the operator signer hashes equals OpenZeppelin's toEthSignedMessageHash
    preimage for a 32-byte hash *)
 Theorem eth_signed_message_preimage_equal :
@@ -151,7 +181,55 @@ Theorem inactivity_claim_preimage_equal :
 Proof. exact Proofs.C40.claim_preimage_eq. Qed.
 Print Assumptions inactivity_claim_preimage_equal.
 
+(* the static part of EcdsaInactivity.verifyClaim (I:88-114): every claim assembled from a valid
+   claim input — NON-EMPTY raw inactive list (the client has no guard; stated in valid_claim),
+   raw indices within [1, n], distinct supporter seats within [1, n] with 65-byte signatures,
+   at least c_threshold >= the contract's threshold of them — has strictly increasing inactive
+   and signing indices (NewClaimPreimage dedups and sorts; convertSignaturesToChainFormat
+   sorts), signatures concatenated in signing order, and passes verify_claim_static *)
+Theorem assembled_claim_passes_static_checks :
+  forall thr c, valid_claim thr c ->
+  exists k, assemble_claim (c_wallet c) (new_claim_inactive (c_raw c)) (c_sigs c) (c_hbf c) = Ok k /\
+    StronglySorted N.lt (k_inactive k) /\ (forall x, In x (k_inactive k) <-> In x (c_raw c)) /\
+    StronglySorted N.lt (k_signing k) /\ Permutation (k_signing k) (map fst (c_sigs c)) /\
+    k_sigs k = concat (map (fun s => assoc s (c_sigs c)) (k_signing k)) /\
+    verify_claim_static thr k (c_nmembers c) = true.
+Proof. exact Proofs.C40.assembled_claim_static. Qed.
+Print Assumptions assembled_claim_passes_static_checks.
+
+(* the non-emptiness precondition is necessary: the contract refuses any claim without inactive
+   members, whatever else it contains *)
+Theorem claim_with_empty_inactive_list_rejected :
+  forall thr k n, k_inactive k = [] -> verify_claim_static thr k n = false.
+Proof. exact Proofs.C40.empty_inactive_rejected. Qed.
+Print Assumptions claim_with_empty_inactive_list_rejected.
+
+(* the signature loop of verifyClaim (I:116-163) under the same ECDSA premise: when every
+   supporter signed the client's claim hash and the sender is the operator of one supporter,
+   the whole of verifyClaim passes for the assembled claim and the key coordinates
+   Wallets.addWallet stored *)
+Theorem assembled_claim_signatures_recover :
+  forall (keccak : bytes -> bytes) (ecrecover : bytes -> N -> bytes -> bytes -> N)
+         (operator_of : N -> N) (signed : N -> bytes -> bytes -> Prop),
+  (forall b, lenN (keccak b) = 32) -> ecdsa_recovers ecrecover signed ->
+  forall thr c members sender, valid_claim thr c -> lenN members = c_nmembers c ->
+  claim_supporters_signed keccak operator_of signed c members ->
+  (exists k s id, In (k, s) (c_sigs c) /\ nth_error members (N.to_nat (k - 1)) = Some id
+                  /\ sender = operator_of id) ->
+  exists k pk,
+    assemble_claim (c_wallet c) (new_claim_inactive (c_raw c)) (c_sigs c) (c_hbf c) = Ok k /\
+    pubkey_chain_format (c_x c) (c_y c) = Some pk /\
+    verify_claim_static thr k (lenN members) = true /\
+    verify_claim_signatures keccak ecrecover operator_of (c_chainid c) (c_nonce c)
+                            (wallet_x pk) (wallet_y pk) k members sender = true.
+Proof. exact Proofs.C40.assembled_claim_signatures. Qed.
+Print Assumptions assembled_claim_signatures_recover.
+
 (* ---- the executable forms used by the correspondence check *)
 Theorem valid_inb_sound : forall p quorum i, valid_inb p quorum i = true -> valid_in p quorum i.
 Proof. exact Proofs.C40.valid_inb_sound. Qed.
 Print Assumptions valid_inb_sound.
+
+Theorem valid_claimb_sound : forall thr c, valid_claimb thr c = true -> valid_claim thr c.
+Proof. exact Proofs.C40.valid_claimb_sound. Qed.
+Print Assumptions valid_claimb_sound.
